@@ -1,7 +1,7 @@
 from checks import AXIOMS, TRANSLATOR, CORR
 
 CONFIG = dict(
-        lean_modules=["Canopy.Props.C17"],
+        lean_modules=["Canopy.Props.C17", "Canopy.Proof.Transport", "Canopy.Proof.Handshake"],
         driver=True,
         level="proof",
         thorough_seeds=2,
